@@ -11,8 +11,15 @@ Local Open Scope Z_scope.
    named n.  The converter must receive the value named n.
    Family F2: additionally a converter taking (n, T) by name: it must be the
    one that runs. *)
-Definition c07_f1_ok (n : string) (b : builder) (conv : Z) (o : call_obs) : bool :=
+(* the supplied value named n (with or without a subtype label) *)
+Definition named_val (b : builder) (n : string) : option value :=
   match lookup n (b_named b) with
+  | Some v => Some v
+  | None => match find (fun kv => Base.eqb (fst (fst kv)) n) (b_namedsub b) with
+            | Some kv => Some (snd kv) | None => None end
+  end.
+Definition c07_f1_ok (n : string) (b : builder) (conv : Z) (o : call_obs) : bool :=
+  match named_val b n with
   | Some v =>
       co_ok o &&
       existsb (fun e => match e with
@@ -28,9 +35,43 @@ Definition c07_f2_ok (named_conv typed_conv : Z) (o : call_obs) : bool :=
   existsb (is_exec_of named_conv) (co_events o) &&
   negb (existsb (is_exec_of typed_conv) (co_events o)).
 
+(* several named parameters of the same type, all produced by ONE type-only
+   converter from same-typed named inputs: parameter n_i must be converted
+   from the input named n_i *)
+Definition c07_multi_ok (f : fdecl) (b : builder) (conv : Z) (o : call_obs) : bool :=
+  co_ok o &&
+  match filter (is_exec_of (fn_id f)) (co_events o) with
+  | [EExec _ args _ _] =>
+      forallb (fun pa =>
+         let '(p, a) := pa in
+         match named_val b (f_name p) with
+         | None => true
+         | Some v =>
+             existsb (fun e => match e with
+                               | EExec fid [a0] outs _ =>
+                                   (fid =? conv) && existsb (fun x => v_id x =? v_id a) outs && (v_id a0 =? v_id v)
+                               | _ => false end) (co_events o)
+         end) (combine (fn_in f) args)
+  | _ => false
+  end.
+
 (* the family is recognised from the shape of the scenario *)
 Definition c07_monitor (u : universe) (f : fdecl) (d opts : list arg) (ob : op_obs) : Z :=
   match fn_in f, build_args d opts with
+  | p1 :: p2 :: rest, Some b =>
+      (* all parameters named, one type, not supplied directly; a single type-only converter into that type *)
+      let ps := p1 :: p2 :: rest in
+      if forallb (fun p => negb (is_empty (f_name p)) && (f_ty p =? f_ty p1) && is_empty (f_sub p)) ps then
+        match filter (fun c => match fn_in c, fn_out c with
+                               | [i], [o] => is_empty (f_name i) && is_empty (f_name o) && (f_ty o =? f_ty p1)
+                               | _, _ => false end) (b_convs b) with
+        | [tc] => if forallb (fun p => match named_val b (f_name p) with
+                                       | Some v => match fn_in tc with [i] => v_ty v =? f_ty i | _ => false end
+                                       | None => false end) ps
+                  then (if c07_multi_ok f b (fn_id tc) (co_of_obs ob) then 0 else 74) else 0
+        | _ => 0
+        end
+      else 0
   | [p], Some b =>
       if is_empty (f_name p) then 0
       else
